@@ -12,7 +12,7 @@ import vlib
 from vlib import Verdict
 
 PID = "C07"
-PROPS = [("theories/Union/Props.v", "Union.Props"), ("theories/Union/PropsX.v", "Union.PropsX"), ("theories/Union/PropsP.v", "Union.PropsP")]
+PROPS = [("theories/Union/Props.v", "Union.Props"), ("theories/Union/PropsX.v", "Union.PropsX"), ("theories/Union/PropsP.v", "Union.PropsP"), ("theories/Union/PropsY.v", "Union.PropsY")]
 AREAS = ["theories/Base", "theories/Union"]
 
 CONCLUSION = {
@@ -74,7 +74,7 @@ def main(tier, replay):
                axioms={k: a for k, a in gate["axioms"].items() if a})
     proof_broken = not gate["ok"]
     if tier == "thorough" and gate["ok"]:
-        okc, outc = vlib.coqchk(["Verif.Union.Props", "Verif.Union.PropsX", "Verif.Union.PropsP"])
+        okc, outc = vlib.coqchk(["Verif.Union.Props", "Verif.Union.PropsX", "Verif.Union.PropsP", "Verif.Union.PropsY"])
         cov["coqchk"] = "ok" if okc else outc[-300:]
         if not okc:
             proof_broken = True; gate["problems"].append("coqchk: " + outc[-300:])
